@@ -20,5 +20,10 @@ def obligations(tier):
     o = ob("C10", "e2c.a5.D26", "vt.harness.A5:held_actions", {"prop": "C10", "did": "D26", "steps": 6, "control": "cancel"}, timeout=1200)
     o["antecedents"] = ["a5_held", "c10_last_reported"]
     obs.extend(control_slices(o, 7))
+    # items that acknowledge the cancel (canceling) or an earlier pause (pausing) before their final report
+    for ctl in ("cancel", "both"):
+        o = ob("C10", "e2c.cascade.%s.W" % ctl, "vt.harness.C10:cancel", {"did": "W[n=3,k=2]", "steps": 5, "control": ctl, "intermediate": True, "statuses": ["succeeded", "canceled"]}, timeout=1200)
+        o["antecedents"] = ["c10_last_reported"]
+        obs.append(o)
     obs.append(ob("C10", "twin.D04", "vt.harness.C10:cancel", {"did": "D04", "steps": 5, "control": "both", "twin": True}, timeout=60))
     return obs
